@@ -98,6 +98,19 @@ def run (kv : List (String × String)) : IO Res := do
   | "badlink" =>
     if !tree.any (·.startsWith "WriteDSODebugStreamFailed") then
       return .propfail s!"a linker list with a name that is not UTF-8 was not reported (list: {tree})" tags
+  | "traced-reused" =>
+    if !tree.contains "SuspendThreadsErrors/PtraceAttachError/EPERM" then
+      return .propfail "a blamed thread that could not be attached was not reported" tags
+    -- all other streams intact: the reused writer's dump is the fresh writer's dump of the same situation
+    if let some refB ← readSidecar kv "ref" then
+      let some cr := canonical (imgOf refB) | return .bad "reference image"
+      let some cf := canonical img | return .propfail "image does not decode" tags
+      let keep (l : String) : Bool := !(l.startsWith "hdr ")
+      let (a, b) := (cr.filter keep, cf.filter keep)
+      if a != b then
+        let k := ((a.zip b).takeWhile (fun (x, y) => x == y)).length
+        return .propfail s!"with an unattachable blamed thread on a reused writer a stream differs from a fresh writer's dump: `{(b[k]?).getD "(missing)"}` vs `{(a[k]?).getD "(missing)"}`" tags
+      tags := "reused.intact" :: tags
   | "traced" =>
     if !tree.contains "SuspendThreadsErrors/PtraceAttachError/EPERM" then
       return .propfail "a thread that could not be attached was not reported" tags
